@@ -86,6 +86,29 @@ def run(ctx):
         ok = g.exit not in g2.reach([tests[0].id])
     ctx.check("R4-tree-out-of-date-refused", where, ok, "a tree whose first parent is not the master tip is refused (OutOfDateTree)")
 
+    # R4b: the out-of-date check re-reads the *master* tip, and does so after the master was write-locked
+    srcs = [(norm(s.targets[0]), s.value) for s in walk_own(fn) if isinstance(s, ast.Assign)]
+    ml = [v for t, v in srcs if t == "master_last" or t.endswith("master_last)") or "master_last" in t]
+    ok = bool(ml) and all(isinstance(v, ast.Call) and call_recv(v) == "self.master_branch" and call_attr(v) in ("last_revision", "last_revision_info") for v in ml)
+    ctx.check("R4-master-tip-reread-under-lock", where, ok, "the tip compared with the tree's parent is read from self.master_branch (not assumed from the local branch)", construct="; ".join(norm(v) for v in ml), message="the out-of-date check no longer re-reads the master's tip: a master that moved between the unlocked comparison and the lock grant is not noticed and its history is overwritten")
+    k1_before(ctx, "R4-master-tip-reread-under-lock", wherec, gc, cb, co, "the master is locked (_check_bound_branch) before its tip is re-read (_check_out_of_date_tree)")
+
+    # ---- R6: pull / push into a bound branch update the master first -----------------
+    BRF = "breezy/branch.py"
+    fnp, gp, wherep = fn_cfg(ctx, BRF, "GenericInterBranch.pull")
+    mp = need(wherep, calling(gp, attr="pull", recv="master_branch"), "master_branch.pull(...)")
+    lp = need(wherep, calling(gp, attr="_pull", recv="self"), "self._pull(...)")
+    ok, w = gp.assume({"master_branch": True}).always_before(mp, lp)
+    ctx.check("R6-pull-master-first", wherep, ok, "pull into a bound branch updates the master before the local branch (a refusal by the master leaves the local branch untouched)", message="pull moves the local branch before the master accepted the revisions: a refused pull leaves the checkout diverged from its master", witness=gp.show_path(w) if w else None)
+    gm = need(wherep, calling(gp, attr="get_master_branch"), "get_master_branch")
+    k2_unreachable(ctx, "R6-pull-local-skips-master", wherep, gp, {"local": True, "not local": False}, gm, "pull --local does not look the master up")
+    fnq, gq, whereq = fn_cfg(ctx, BRF, "GenericInterBranch.push")
+    mq = need(whereq, calling(gq, attr="_basic_push", recv="master_inter"), "master_inter._basic_push(...)")
+    lq = [i for i in calling(gq, attr="_basic_push", recv="self") if i in gq.reach(mq) or any(set(mq) & gq.reach([gq.entry], avoid=[i], include_src=True) for _ in [0])]
+    bound_local = [i for i in calling(gq, attr="_basic_push", recv="self") if i in gq.reach(calling(gq, attr="get_master_branch"))]
+    ok, w = gq.always_before(mq, bound_local) if bound_local else (False, None)
+    ctx.check("R6-push-master-first", whereq, ok, "push to a bound branch updates its master before the branch itself", witness=gq.show_path(w) if w else None)
+
     # ---- R5 -----------------------------------------------------------------
     fn, g, where = fn_cfg(ctx, UC, "uncommit")
     sl = need(where, calling(g, attr="set_last_revision_info"), "set_last_revision_info calls")
